@@ -804,3 +804,79 @@ theorem gr_mtdn_list (qs : List Modulus) (invs : List MulOperand) (t : Modulus) 
     rw [if_neg (by omega), this, hlastget, gr_getD_append_right _ _ _ _ (by rw [List.length_map, List.length_range']),
       List.length_map, List.length_range', Nat.sub_self]
     rfl
+
+/-! ### loops whose per-component step can trap: the monadic fold over components -/
+
+/-- the component list after `k` iterations starting at `i`, each replacing component `i` by `comp i cs` (which may trap) -/
+def gr_foldM (comp : Nat → List (List Nat) → R (List Nat)) : Nat → Nat → List (List Nat) → R (List (List Nat))
+  | 0, _, cs => .ok cs
+  | k+1, i, cs => comp i cs >>= fun c => gr_foldM comp k (i+1) (cs.set i c)
+
+/-- if `comp i` reads only component `i` and the (untouched) component `L`, the fold is a `mapM` over the ORIGINAL components -/
+theorem gr_foldM_eq (comp : Nat → List (List Nat) → R (List Nat)) (L : Nat)
+    (hc : ∀ i (cs cs' : List (List Nat)), cs.getD i [] = cs'.getD i [] → cs.getD L [] = cs'.getD L [] → comp i cs = comp i cs') :
+    ∀ k i (cs : List (List Nat)), i + k ≤ L → L < cs.length →
+      gr_foldM comp k i cs = ((List.range' i k).mapM (fun i' => comp i' cs) >>= fun outs => .ok (cs.take i ++ outs ++ cs.drop (i + k))) := by
+  intro k
+  induction k with
+  | zero => intro i cs _ _; rw [gr_foldM, List.range'_zero, gr_mapM_nil, gr_ok_bind, List.append_nil, Nat.add_zero, List.take_append_drop]
+  | succ k ih =>
+    intro i cs hik hL
+    rw [gr_foldM, List.range'_succ, gr_mapM_cons]
+    cases hci : comp i cs with
+    | error e => rfl
+    | ok c =>
+      rw [gr_ok_bind, gr_ok_bind, ih (i+1) (cs.set i c) (by omega) (by rw [List.length_set]; exact hL)]
+      have hcg : (List.range' (i+1) k).mapM (fun i' => comp i' (cs.set i c)) = (List.range' (i+1) k).mapM (fun i' => comp i' cs) := by
+        apply gr_mapM_congr
+        intro i' hi'
+        rw [List.mem_range'_1] at hi'
+        exact hc i' _ _ (gr_getD_set_ne _ _ _ _ _ (by omega)) (gr_getD_set_ne _ _ _ _ _ (by omega))
+      rw [hcg]
+      cases (List.range' (i+1) k).mapM (fun i' => comp i' cs) with
+      | error e => rfl
+      | ok outs =>
+        rw [gr_ok_bind, gr_ok_bind, gr_ok_bind]
+        have e2 : i + (k + 1) = i + 1 + k := by omega
+        have hi : i < cs.length := by omega
+        have ht : (cs.set i c).take (i + 1) = cs.take i ++ [c] := by
+          rw [List.take_succ_eq_append_getElem (by rw [List.length_set]; exact hi), List.getElem_set_self, List.take_set_of_le (Nat.le_refl i)]
+        rw [e2, ht, List.drop_set_of_lt (by omega)]
+        simp
+
+/-- in-place loop at an offset that also READS the buffer elsewhere: `Inv` describes what the loop may rely on and is kept by its writes -/
+theorem gr_offloop_inv (loop : Nat → Nat → List Nat → R (List Nat)) (G : Nat → Nat → R Nat) (off N : Nat) (Inv : List Nat → Prop)
+    (hInv : ∀ (l : List Nat) j y, Inv l → j < N → Inv (l.set (off + j) y))
+    (h0 : ∀ j l, loop 0 j l = .ok l)
+    (hs : ∀ k j (l : List Nat) (h : off + j < l.length), j < N → Inv l → loop (k+1) j l = (G j l[off + j] >>= fun y => loop k (j+1) (l.set (off + j) y))) :
+    ∀ k j (l : List Nat), j + k ≤ N → off + j + k ≤ l.length → Inv l →
+      loop k j l = ((List.range' j k).mapM (fun j' => G j' (l.getD (off + j') 0)) >>= fun ys => .ok (l.take (off + j) ++ ys ++ l.drop (off + j + k))) := by
+  intro k
+  induction k with
+  | zero =>
+    intro j l _ _ _
+    rw [h0, List.range'_zero, gr_mapM_nil, gr_ok_bind, List.append_nil, Nat.add_zero, List.take_append_drop]
+  | succ k ih =>
+    intro j l hN hl hI
+    have hi : off + j < l.length := by omega
+    rw [hs k j l hi (by omega) hI, List.range'_succ, gr_mapM_cons]
+    have hg : l.getD (off + j) 0 = l[off + j] := by rw [List.getD_eq_getElem?_getD, List.getElem?_eq_getElem hi]; rfl
+    rw [hg]
+    cases hG : G j l[off + j] with
+    | error e => rfl
+    | ok y =>
+      rw [gr_ok_bind, gr_ok_bind, ih (j+1) (l.set (off + j) y) (by omega) (by rw [List.length_set]; omega) (hInv l j y hI (by omega))]
+      have hc : (List.range' (j+1) k).mapM (fun j' => G j' ((l.set (off + j) y).getD (off + j') 0)) = (List.range' (j+1) k).mapM (fun j' => G j' (l.getD (off + j') 0)) := by
+        apply gr_mapM_congr
+        intro j' hj
+        rw [List.mem_range'_1] at hj
+        rw [gr_getD_set_ne _ _ _ _ _ (by omega)]
+      rw [hc]
+      cases hm : (List.range' (j+1) k).mapM (fun j' => G j' (l.getD (off + j') 0)) with
+      | error e => rfl
+      | ok ys =>
+        rw [gr_ok_bind, gr_ok_bind, gr_ok_bind]
+        have e1 : off + (j + 1) = off + j + 1 := by omega
+        have e2 : off + j + (k + 1) = off + j + 1 + k := by omega
+        rw [e1, e2, gx_take_set _ _ _ hi, List.drop_set_of_lt (by omega)]
+        simp
